@@ -201,6 +201,10 @@ EXPORT errno_t _wcsrtombs_s_chk(size_t *restrict retvalp, char *restrict dest,
         return RCNEGATE(ESOVRLP);
     }
 
+    /* never let libc store more than dmax bytes */
+    if (dest && len > dmax) {
+        len = dmax;
+    }
     l = *retvalp = wcsrtombs(dest, srcp, len, ps);
 
     if (likely(l > 0 && l < dmax)) {
